@@ -1,10 +1,10 @@
 //! NACK send buffer (`DefaultRtpSenderNackHandler`) and receiver gap detection
-//! (`DefaultRtpReceiverNackHandler`) — driven through their public API, no hooks.
+//! (`DefaultRtpReceiverNackHandler`) — public API plus the hooks `verif_pending_len`, `verif_set_rtx_state`, `verif_maybe_unwrap_rtx`.
 use super::Fails;
 use crate::pk;
 use crate::{Rng, Run};
 use bytes::Bytes;
-use rustrtc::peer_connection::{DefaultRtpReceiverNackHandler, DefaultRtpSenderNackHandler, RtpReceiverInterceptor, RtpSenderInterceptor};
+use rustrtc::peer_connection::{DefaultRtpReceiverNackHandler, DefaultRtpSenderNackHandler, NackStats, RtpReceiverInterceptor, RtpSenderInterceptor};
 use rustrtc::rtp::{RtcpPacket, RtpHeader, RtpPacket};
 use std::collections::{HashMap, VecDeque};
 use std::net::SocketAddr;
@@ -34,7 +34,8 @@ pub fn s_nackbuf(_run: &mut Run, a: &[&str]) -> (String, Fails) {
     // newest version per sequence number, 25 ms per-sequence resend cooldown
     let mut fifo: VecDeque<u16> = VecDeque::new(); let mut latest: HashMap<u16, u32> = HashMap::new();
     let mut accepted: HashMap<u16, u64> = HashMap::new();
-    let mut rtx: u32 = 0;
+    let mut rtx: u32 = 0;          // `rtx_ssrc_fast`
+    let mut rtx_on = false;        // `rtx_config.is_some()`: `set_rtx(Some{rtx_ssrc: 0, ..})` enables wrapping although the fast SSRC is 0
     // a transport without a socket: `send_rtp` fails after the egress observers have seen the packet
     let (_stx, srx) = tokio::sync::watch::channel::<Option<rustrtc::transports::ice::IceSocketWrapper>>(None);
     let tr = std::sync::Arc::new(rustrtc::transports::rtp::RtpTransport::new(rustrtc::transports::ice::conn::IceConn::new(srx, addr(), None), false));
@@ -46,10 +47,11 @@ pub fn s_nackbuf(_run: &mut Run, a: &[&str]) -> (String, Fails) {
     for op in &a[1..] {
         let g: Vec<&str> = op.split(':').collect();
         match g[0] {
-            "r" => {
+            "r" | "R" => {
                 rtx = g[1].parse().unwrap();
-                h.set_rtx(if rtx == 0 { None } else { Some(rustrtc::rtx::RtxSenderConfig { rtx_ssrc: rtx, rtx_payload_type: RTX_PT }) });
-                if h.rtx_config().map(|c| c.rtx_ssrc).unwrap_or(0) != rtx { f.push(("nackbuf:rtx-config".into(), String::new())); }
+                rtx_on = g[0] == "R" || rtx != 0;
+                h.set_rtx(if rtx_on { Some(rustrtc::rtx::RtxSenderConfig { rtx_ssrc: rtx, rtx_payload_type: RTX_PT }) } else { None });
+                if h.rtx_config().map(|c| c.rtx_ssrc) != (if rtx_on { Some(rtx) } else { None }) { f.push(("nackbuf:rtx-config".into(), String::new())); }
                 out.push(format!("l{}", h.buffered_packet_count()));
             }
             "s" | "x" => {
@@ -76,7 +78,7 @@ pub fn s_nackbuf(_run: &mut Run, a: &[&str]) -> (String, Fails) {
                 let sent: Vec<RtpPacket> = egress.0.lock().drain(..).collect();
                 let mut items = vec![]; let mut seen = vec![];
                 for p in &sent {
-                    if rtx != 0 {
+                    if rtx_on {
                         // an RFC 4588 retransmission: RTX SSRC and PT, own sequence space, OSN + original payload
                         if p.header.ssrc != rtx || p.header.payload_type != RTX_PT || p.payload.len() < 2 { f.push(("nackbuf:rtx-wrap".into(), format!("{:?}", p.header))); continue; }
                         let osn = u16::from_be_bytes([p.payload[0], p.payload[1]]);
@@ -145,6 +147,7 @@ pub fn s_gap(_run: &mut Run, a: &[&str]) -> (String, Fails) {
     // bookkeeping for the oracle: highest sequence number accepted so far on the current SSRC
     let mut cur: Option<(u32, u16)> = None; let mut nacked: Vec<u16> = vec![];
     let mut plen_before = 0usize;
+    let mut last_step: Option<(Vec<u16>, bool)> = None;     // (lost list of the last NACK, did that step evict)
     for t in a {
         let (s, q) = t.split_once(':').unwrap();
         let (ssrc, seq): (u32, u16) = (s.parse().unwrap(), q.parse().unwrap());
@@ -179,10 +182,22 @@ pub fn s_gap(_run: &mut Run, a: &[&str]) -> (String, Fails) {
         let plen = h.verif_pending_len();
         // "bound pending set similarly to the gap cap": an eviction leaves exactly MAX_RECEIVER_NACK_GAP entries
         if lost.is_some() && plen < plen_before && plen != 128 { f.push(("gap:pending-eviction-size".into(), format!("{plen_before} -> {plen}"))); }
+        last_step = lost.clone().map(|l| (l, plen < plen_before));
         plen_before = plen;
         // the pending set is bounded: it never exceeds twice the NACK cap, and a step that would is cut back to the cap
         if plen > 256 { f.push(("gap:pending-unbounded".into(), format!("{plen}"))); }
         out.push(format!("{}#{plen}", match lost { None => "n".to_string(), Some(l) => format!("k{}", if l.is_empty() { "-".into() } else { l.iter().map(|x| x.to_string()).collect::<Vec<_>>().join(";") }) }));
+    }
+    // After an eviction the code keeps 128 entries "in HashSet order" (unspecified, so the model stops here). One thing
+    // is still checked, statistically: the eviction is meant for OLDER entries — if the gap just NACKed has ≥ 64 entries,
+    // an order-independent choice of the 128 survivors keeps at least one of them with probability > 1 - 2^-60, so at
+    // least one retransmission of the newest gap must still be recognised as recovered.
+    if let Some((newest, true)) = last_step {
+        if newest.len() >= 64 {
+            let before = h.get_recovered_count();
+            for s in &newest { let _ = futures::executor::block_on(h.on_packet_received(&pkt(cur.map_or(0, |c| c.0), *s, 0), addr(), addr())); }
+            if h.get_recovered_count() == before { f.push(("gap:eviction-forgets-the-newest-gap".into(), format!("none of {} just-NACKed packets is recognised when it arrives", newest.len()))); }
+        }
     }
     (out.join(" "), f)
 }
@@ -200,7 +215,7 @@ pub fn generate(run: &mut Run, rng: &mut Rng, scale: u64, emit: &mut dyn FnMut(&
                 if rng.chance(1, 5) { ops.push(format!("x:{}:{seq}:{tag}", pk!(rng, [9u32, 9, 9, 7, 0]))); }
                 else { ops.push(format!("s:{seq}:{tag}")); }
                 tag += 1;
-                if rng.chance(1, 8) { ops.push(format!("r:{}", pk!(rng, [9u32, 9, 9, 0, 7]))); }
+                if rng.chance(1, 8) { ops.push(format!("{}:{}", pk!(rng, ["r", "r", "r", "R"]), pk!(rng, [9u32, 9, 9, 0, 7]))); }
             } else {
                 // (time occasionally runs backwards: `duration_since` saturates, pruned cooldown entries stop suppressing)
                 if rng.chance(1, 10) { t = t.saturating_sub(pk!(rng, [1u64, 30, 200])); } else { t += pk!(rng, [0u64, 1, 24, 25, 26, 100]); }
@@ -221,7 +236,7 @@ pub fn generate(run: &mut Run, rng: &mut Rng, scale: u64, emit: &mut dyn FnMut(&
         for _ in 0..rng.range(3, 25) {
             match rng.below(10) {
                 0..=5 => { seq = seq.wrapping_add(1); if rng.chance(1, 8) { ops.push(format!("x:9:{seq}:{tag}")); } else { ops.push(format!("s:{seq}:{tag}")); } tag += 1; }
-                6 => ops.push(format!("r:{}", pk!(rng, [9u32, 9, 0]))),
+                6 => ops.push(format!("{}:{}", pk!(rng, ["r", "r", "R"]), pk!(rng, [9u32, 9, 0]))),
                 _ => { t += 30; let k = rng.range(1, 5);
                     let qs: Vec<String> = (0..k).map(|_| seq.wrapping_sub(rng.below(6) as u16).to_string()).collect();
                     ops.push(format!("n:{t}:{}", qs.join(";"))); }
